@@ -681,6 +681,20 @@ def aliases_case(ctx, case):
             setattr(o3, alias, tuple(vals))
             if [getattr(o3, n) for n in under] != vals:
                 ctx.fail('aliases', 'A-set-tuple', case)
+            # ... and so is any iterable of the values: a list, a
+            # generator, map(), iter() (one pass is all it takes)
+            for form, mk in (('list', list), ('iter', iter),
+                             ('generator', lambda t: (x for x in t)),
+                             ('map', lambda t: map(lambda x: x, t)),
+                             ('reversed', lambda t: reversed(t[::-1]))):
+                o4 = cls()
+                for n in under:
+                    setattr(o4, n, -7)          # the old values
+                setattr(o4, alias, mk(tuple(vals)))
+                if [getattr(o4, n) for n in under] != vals:
+                    ctx.fail('aliases', 'A-set-iterable',
+                             dict(case, form=form),
+                             [getattr(o4, n) for n in under], vals)
         # delete removes
         delattr(o2, alias)
         left = [n for n in under if n in getattr(o2, '__dict__', {}) or
@@ -748,6 +762,11 @@ def generated_alias_case(ctx, case):
             h.vec == Vector(*vals) and h.tup == (vals[0], vals[1])
         h.tup = (vals[2], vals[0])
         ok = ok and (h.p, h.q) == (vals[2], vals[0])
+        h.tup = iter((vals[0], vals[1]))
+        ok = ok and (h.p, h.q) == (vals[0], vals[1])
+        h.vec = (x for x in (vals[2], vals[0], vals[1]))
+        ok = ok and (h.p, h.q, h.r) == (vals[2], vals[0], vals[1])
+        h.tup = (vals[2], vals[0])
         h.kw = Vector(vals[1], vals[2], vals[0])
         ok = ok and (h.p, h.q, h.r) == (vals[1], vals[2], vals[0]) and \
             h.kw == Vector(vals[1], vals[2], vals[0])
